@@ -113,6 +113,12 @@ def _configs(tier, thick=False):
                         thick=thick, op="sum", nz=None))
     out.append(dict(kind="wiring", d="z", nx=2, ny=1, ncell=1, win=1.0, unit="cm", origin=False, layer="scalar", nanpat="all",
                     thick=thick, op="sum", nz=None))
+    # the call under check is the SECOND of two calls sharing the same argument objects (layer, origin, resolution dict); the
+    # first one asks for another window depth / size: nothing may be carried over from it
+    for op in ((("sum", "mean") if tier != "quick" else ("sum",)) if thick else ("sum",)):
+        for dzr in ((("le", "ge") if tier != "quick" else ("le",)) if thick else (None,)):
+            out.append(dict(kind="wiring", d="z", nx=2, ny=1, ncell=1, win=1.0, unit="cm", origin=True, layer="scalar", nanpat="none",
+                            thick=thick, op=op, nz=None, dzrange=dzr, warm=True))
     if tier != "quick" and not thick:
         out.append(dict(kind="wiring", d="v236", nx=1, ny=1, ncell=1, win=1.0, unit="cm", origin=True, layer="scalar", nanpat="none",
                         thick=False, op="sum"))
@@ -294,7 +300,7 @@ def _wiring(m, cfg):
     d, nx, ny, ncell, win, layer, thick = cfg["d"], cfg["nx"], cfg["ny"], cfg["ncell"], cfg["win"], cfg["layer"], cfg.get("thick")
     op = cfg.get("op", "sum")
     ndim = 2 if d == "2d" else 3
-    tag = f"{'thick' if thick else 'thin'}:{d}:{nx}x{ny}:c{ncell}:{layer}" + (f":{op}" if thick else "")
+    tag = f"{'thick' if thick else 'thin'}:{d}:{nx}x{ny}:c{ncell}:{layer}" + (f":{op}" if thick else "") + (":second-call" if cfg.get("warm") else "")
     dg, C_, S_, RHO, W_ = _cells(m, ncell, ndim)
     o = [m.real("o" + k, lo=-BIG, hi=BIG) for k in "xyz"[:ndim]] if cfg["origin"] else None
     O = [m.t(x) for x in o] if o else [m.t(0.0)] * ndim
@@ -354,6 +360,13 @@ def _wiring(m, cfg):
     real_kernel = M.evaluate_on_grid
     M.evaluate_on_grid = recorder
     try:
+        if cfg.get("warm"):
+            try:
+                osyris.map(lay, **_warm_kw(kw, thick))
+            except RuntimeError as e:
+                if "No cells were selected" not in str(e):
+                    raise
+            rec.clear()
         try:
             p = osyris.map(lay, **kw)
         except RuntimeError as e:
@@ -409,23 +422,6 @@ def _wiring(m, cfg):
         return
     xs = [-0.5 * Wcm + Wcm * ((i + 0.5) / nx) for i in range(nx)]
     ys = [-0.5 * Wcm + Wcm * ((j + 0.5) / ny) for j in range(ny)]
-    if thick:
-        # number of depth samples: the given one, or the rounding of dz / mean pixel size
-        if cfg.get("nz"):
-            m.require(nz_ == cfg["nz"], "depth resolution is the requested one", key=f"nz:{tag}")
-        else:
-            pix = 0.5 * (Wcm / nx + Wcm / ny)
-            q = DZ / pix
-            m.check("number of depth samples is dz / pixel size rounded to the nearest integer",
-                    m.And(m.ge(q, nz_ - 0.5), m.le(q, nz_ + 0.5)), key=f"nz:{tag}")
-        zstep = DZ / nz_
-        zs = [-0.5 * DZ + zstep * (k + 0.5) for k in range(nz_)]
-    else:
-        m.require(nz_ == 1, "a thin map has one depth sample", key=f"nz:{tag}")
-        zs = [m.t(0.0)]
-        zstep = None
-    fs = []
-    sc = m.abs(Wcm) + sum((m.abs(O[k]) for k in range(ndim)), m.t(0.0)) + sum((m.abs(C_[k][n]) for k in range(ndim) for n in range(ncell)), m.t(0.0))
     # counterexamples of the cut-point obligations are replayed END TO END: among the violating inputs prefer those where the
     # cells are small, well inside the window and off-centre by a different positive amount along u and v (so that a
     # mirrored / swapped / shifted image differs at the pixels of the 16x16 replay grid); verdicts do not depend on this
@@ -440,7 +436,23 @@ def _wiring(m, cfg):
         if ndim == 3:
             dn = sum((nvec[k] * rel_[k] for k in range(ndim)), m.t(0.0))
             vis += [m.le(m.abs(dn), S_[n] / 8.0)]
-
+    if thick:
+        # number of depth samples: the given one, or the rounding of dz / mean pixel size
+        if cfg.get("nz"):
+            m.require(nz_ == cfg["nz"], "depth resolution is the requested one", key=f"nz:{tag}")
+        else:
+            pix = 0.5 * (Wcm / nx + Wcm / ny)
+            q = DZ / pix
+            m.check("number of depth samples is dz / pixel size rounded to the nearest integer",
+                    m.And(m.ge(q, nz_ - 0.5), m.le(q, nz_ + 0.5)), key=f"nz:{tag}", prefer=vis)
+        zstep = DZ / nz_
+        zs = [-0.5 * DZ + zstep * (k + 0.5) for k in range(nz_)]
+    else:
+        m.require(nz_ == 1, "a thin map has one depth sample", key=f"nz:{tag}")
+        zs = [m.t(0.0)]
+        zstep = None
+    fs = []
+    sc = m.abs(Wcm) + sum((m.abs(O[k]) for k in range(ndim)), m.t(0.0)) + sum((m.abs(C_[k][n]) for k in range(ndim) for n in range(ncell)), m.t(0.0))
     def A(name):
         return [m.t(t) for t in m.vals(rec[name])]
     cnx, cny, cnz = A("cell_positions_in_new_basis_x"), A("cell_positions_in_new_basis_y"), A("cell_positions_in_new_basis_z")
@@ -536,6 +548,16 @@ def _wiring(m, cfg):
         m.require(unit == base_unit, "unit unchanged", key=f"assembly-unit:{tag}", info=unit)
 
 
+def _warm_kw(kw, thick):
+    """Arguments of the first of two calls: the same objects (resolution dict, origin, ...), another depth / window size."""
+    k2 = dict(kw)
+    if thick:
+        k2["dz"] = kw["dx"] * 2.0           # concrete: two window sizes deep
+    else:
+        k2["dx"] = kw["dx"] * 3.0
+    return k2
+
+
 def _end_to_end(m, cfg, tag, dg, lay, kw, C_, S_, RHO, W_, O, Wcm, fu, point, ndim, basis, Pfree):
     """Concrete replay: the un-instrumented map against the point-location oracle.  A failure is
     reported under every key of the configuration (wildcard)."""
@@ -565,6 +587,13 @@ def _end_to_end_one(m, cfg, nx, ny, lay, kw, C_, S_, RHO, W_, O, Wcm, fu, point,
     ncell = len(S_)
     nvec, uvec, vvec = basis
     bad = []
+    if cfg.get("warm"):
+        try:
+            with single_thread(m):
+                osyris.map(lay, **_warm_kw(kw, thick))
+        except RuntimeError as e:
+            if "No cells were selected" not in str(e):
+                raise
     try:
         with single_thread(m):
             p = osyris.map(lay, **kw)
